@@ -1,5 +1,7 @@
 mod cursor;
 mod dirty_lines;
+#[cfg(avt_verif)]
+mod verif;
 pub use self::cursor::Cursor;
 use self::dirty_lines::DirtyLines;
 use crate::buffer::{Buffer, EraseMode};
